@@ -86,8 +86,10 @@ def path_lex(engine, ctx, params):
     it = engine.new_interp(ctx, step_limit=900000)
     fmt = get_format(it, params['fmt']); lf = lexical_format(it, params['fmt'])
     kind, spec = params['shape']
-    v = build_narsese(it, ('Term', tuple(spec)))
-    text = format_enum(it, fmt, v)
+    if kind == 'text': text = RString([ord(c) for c in spec])          # a surface text the enum model cannot produce (duplicates kept by the lexical model)
+    else:
+        v = build_narsese(it, ('Term', tuple(spec)))
+        text = format_enum(it, fmt, v)
     lr = lex_parse_term(it, lf, list(text.ch))
     if lr.variant != 'Ok': raise Unsupported('lexical parse of formatter output failed: ' + text.py())
     lt = lr.f[0]
@@ -101,6 +103,7 @@ def path_lex(engine, ctx, params):
     exp_children = {'Atom': [stored], 'Compound': stored[2] if stored[0] == 'Compound' else None, 'Set': stored[2] if stored[0] == 'Set' else None, 'Statement': stored[2:4] if stored[0] == 'Statement' else None}[stored[0]]
     if c_ext != exp_children: bad = 'lexical extraction %s, stored %s' % (c_ext, exp_children)
     elif lcat.variant != LEX_CAT[stored[0]]: bad = 'lexical category %s for a %s' % (lcat.variant, stored[0])
+    elif kind == 'text': pass          # folding is not part of this obligation (duplicates / placeholders may be rejected by the enum model)
     elif folded.variant != 'Ok': bad = 'fold of formatter output failed'
     else:
         ecat = it.call_named('<%s as term_category::GetCategory>::get_category' % TERM_TY, [Ref([folded.f[0]], 0)], ['&' + TERM_TY], None)
@@ -123,7 +126,16 @@ def confirm(v, oracle):
             bad = bad or p['including'][idx:idx + 1] != [['Placeholder']] or p['including'][:idx] + p['including'][idx + 1:] != p['components']
         else: bad = bad or srt(p['components']) != srt(p['including'])
         return {'confirmed': bool(bad), 'why': 'native accessors are consistent', 'replay': {'op': 'term_ops', 'args': [v['tok']]}, 'what': '%s on %s: native %s' % (v['what'], v['tok'], json.dumps(p, ensure_ascii=False)[:200])}
-    return {'confirmed': False, 'why': 'lexical accessor replay not implemented natively'}
+    if v['kind'] == 'lexical':
+        st, p = oracle.ask('lex_term_ops', v['fmt'], hexs(v['tok']))
+        rp = {'op': 'lex_term_ops', 'args': [v['fmt'], hexs(v['tok'])], 'text': v['tok']}
+        if st != 'ok': return {'confirmed': st == 'panic', 'replay': rp, 'what': 'native %s' % st, 'why': 'native ' + st}
+        if p[0] != 'Ok': return {'confirmed': False, 'why': 'native lexical parse fails'}
+        t = p[1]['term']
+        exp = {'Atom': [t], 'Compound': t[2] if t[0] == 'Compound' else None, 'Set': t[2] if t[0] == 'Set' else None, 'Statement': t[2:4] if t[0] == 'Statement' else None}[t[0]]
+        bad = p[1]['extract'] != exp or p[1]['category'] != LEX_CAT[t[0]]
+        return {'confirmed': bad, 'why': 'native lexical accessors are consistent', 'replay': rp, 'what': '%s on %r: native extraction %s, category %s' % (v['what'][:80], v['tok'], json.dumps(p[1]['extract'], ensure_ascii=False)[:160], p[1]['category'])}
+    return {'confirmed': False, 'why': 'no native replay for this kind'}
 
 def key_of(v): return '%s:%s:%s' % (v['kind'], v['shape'], v['what'][:40])
 
@@ -149,5 +161,8 @@ def main(tier, seed):
            [('ImageExtension', ('ImageExtension', 1, [('Word', 'a'), ('Word', 'b')])), ('Negation', ('Negation', ('Word', 'a')))] + \
            [(k, (k, ('Word', 'a'), ('Word', 'b'))) for k in CATEGORY if CATEGORY[k][1] in ('BinaryVec', 'BinarySet')]
     plist = [dict(shape=s, fmt=f) for s in conc for f in (('ascii',) if tier == 'quick' else FORMATS)]
+    # the lexical model stores components verbatim: duplicates (adjacent or not) and nesting must come back from extraction unchanged
+    for txt in ('{A, A, B}', '[x, y, y]', '{A, B, A}', '{A, A}', '(&&, A, A, B)', '(*, A, A)', '(||, A, B, B, B)', '(&/, A, +1, +1)', '<{A, A, B} --> [x, y, y]>', '{{A, A}, {A, A}}', '(/, R, _, _)', '<A <-> A>'):
+        plist.append(dict(shape=('text', txt), fmt='ascii'))
     R.run_query(Query('lexical', 'c14', 'path_lex', plist, 'lexical counterparts of %d shapes' % len(conc)), confirm, key_of)
     return R.finish(rule='one state = one path through all accessors of one term shape', trusted=['rustc MIR', 'mirsym + std models (validated per path)', 'z3'])
